@@ -22,7 +22,8 @@ package gateway
 //@      h.transactions.bypktType[4].(*connectTransaction).handler == h && ctInv(h.transactions.bypktType[4].(*connectTransaction))
 // Everything queued for a sleeping client is a well-formed gateway-to-client packet.
 //@ pred bufWF(h *handler1) = forall i int :: 0 <= i && i < len(h.pktBuffer) ==> wfFromGateway(h.pktBuffer[i])
-//@ pred hInv(h *handler1) = h != nil && bufWF(h) && h.cfg != nil && h.state != nil && h.snConn != nil && h.mqttConn != nil &&
+// (h.cfg.RetryCount below the maximum of uint: configuration assumption inherited from C19.)
+//@ pred hInv(h *handler1) = h != nil && bufWF(h) && h.cfg != nil && h.cfg.RetryCount < 0xFFFFFFFFFFFFFFFF && h.state != nil && h.snConn != nil && h.mqttConn != nil &&
 //@      h.transactions != nil && storeInv(h.transactions) && topicSeq(h) && regTypes(h) && boundOnce(h) &&
 //@      state(h) <= 3 && connTx(h)
 
@@ -63,7 +64,8 @@ package gateway
 //@   at Store.0 before assert [C25] new_entry_wf: txEntryWF(h, arg(2))
 //@   ensures [C25] keeps_tx_new: (snPublish.messageID in h.transactions.bypktID) ==> txEntryWF(h, h.transactions.bypktID[snPublish.messageID])
 //@   ensures [C25] keeps_tx_old: forall k uint16 :: k != snPublish.messageID && (k in h.transactions.bypktID) ==> txEntryWF(h, h.transactions.bypktID[k])
-//@   ensures [C25] keeps_tx: txWF(h)
+//@   ensures [C25] keeps_entries: txEntries(h)
+//@   ensures [C25] keeps_pend: pendInv(h)
 //@   ensures [C25] keeps_inv: hInv(h)
 //@   ensures [C25] state_same: state(h) == old(state(h))
 //@   assigns h.mqttOutN, h.mqttOut, map(h.transactions.bypktID)
@@ -166,6 +168,8 @@ package gateway
 //@   ensures [C04] no_predefined_collision: result1 == nil && !old(box(uint16, result0) in h.registeredTopics) ==>
 //@      !nameDefined(h.predefinedTopics, h.clientID, result0)
 //@   ensures [C04] refusal_binds_nothing: result1 != nil ==> (forall k iface :: (k in h.registeredTopics) == old(k in h.registeredTopics))
+//@   ensures [C04] binds_only_the_result: forall k iface :: (k in h.registeredTopics) ==> old(k in h.registeredTopics) || k == box(uint16, result0)
+//@   ensures [C04] new_binding_is_a_fresh_id: result1 == nil && !old(box(uint16, result0) in h.registeredTopics) ==> !old(result0 in h.topicID.given)
 //@   ensures [C04] monotone: forall k uint16 :: old(k in h.topicID.given) ==> (k in h.topicID.given)
 
 // ---- C07: gate for packets received in the disconnected state ----
@@ -337,6 +341,7 @@ package gateway
 //@   loop 0 invariant [C11] sent_so_far: h.snOutN == afterConnack + rangeindex + 1 && h.mqttOutN == old(h.mqttOutN)
 //@   loop 0 invariant [C11] buffer_same: sameSlice(h.pktBuffer, old(h.pktBuffer))
 //@   loop 0 invariant [C11] buffer_wf: bufWF(h)
+//@   loop 0 invariant [C25] pending_announcements: pendInv(h)
 //@   ensures [C25] keeps_basic: h.cfg != nil && h.state != nil && h.snConn != nil && h.mqttConn != nil && h.transactions != nil && state(h) <= 3
 //@   ensures [C25] keeps_store: storeInv(h.transactions)
 //@   ensures [C25] keeps_seq: topicSeq(h)
@@ -344,7 +349,8 @@ package gateway
 //@   ensures [C25] keeps_buf: bufWF(h)
 //@   ensures [C25] keeps_conn: connTx(h)
 //@   ensures [C25] keeps_tx_old: forall k uint16 :: (k in h.transactions.bypktID) ==> txEntryWF(h, h.transactions.bypktID[k])
-//@   ensures [C25] keeps_tx: txWF(h)
+//@   ensures [C25] keeps_entries: txEntries(h)
+//@   ensures [C25] keeps_pend: pendInv(h)
 //@   ensures [C04] registrations_untouched: forall k iface :: (k in h.registeredTopics) == old(k in h.registeredTopics) &&
 //@      smGet(h.registeredTopics, k) == old(smGet(h.registeredTopics, k))
 //@   ensures [C14] only_a_connect_goes_to_the_broker: h.mqttOutN == old(h.mqttOutN) + 1 ==> istype(h.mqttOut[old(h.mqttOutN)], *mqPkts.ConnectPacket)
@@ -359,13 +365,24 @@ package gateway
 //@   ensures [C08] auth_enabled_sends_nothing_yet: h.cfg.AuthEnabled ==> h.mqttOutN == old(h.mqttOutN)
 
 // ---- transactions kept in the store (I-TX): every stored transaction is a well-formed transaction of this handler ----
-//@ opaque pred txEntryWF(h *handler1, v iface) = v != nil &&
-//@      (istype(v, *subscribeTransaction) ==> v.(*subscribeTransaction).handler == h && timedWF(v.(*subscribeTransaction).TimedTransaction)) &&
-//@      (istype(v, *clientPublishQOS1Transaction) ==> v.(*clientPublishQOS1Transaction).handler == h && timedWF(v.(*clientPublishQOS1Transaction).TimedTransaction)) &&
-//@      (istype(v, *brokerPublishQOS2Transaction) ==> v.(*brokerPublishQOS2Transaction).handler == h) &&
-//@      (istype(v, *brokerPublishQOS1Transaction) ==> v.(*brokerPublishQOS1Transaction).handler == h) &&
-//@      (istype(v, *brokerPublishQOS0Transaction) ==> v.(*brokerPublishQOS0Transaction).handler == h)
-//@ pred txWF(h *handler1) = forall k uint16 :: (k in h.transactions.bypktID) ==> txEntryWF(h, h.transactions.bypktID[k])
+// One opaque predicate per kind of transaction, applied under the type test: an atom then reads only
+// fields of objects of its own type (a single predicate over the interface value would also depend on
+// what the heap arrays of the other types hold at the same reference number).
+//@ opaque pred subEntry(h *handler1, t *subscribeTransaction) = t.handler == h && timedWF(t.TimedTransaction)
+//@ opaque pred cpubEntry(h *handler1, t *clientPublishQOS1Transaction) = t.handler == h && timedWF(t.TimedTransaction)
+//@ opaque pred bp0Entry(h *handler1, t *brokerPublishQOS0Transaction) = t.handler == h && bp0WF(t)
+//@ opaque pred bp1Entry(h *handler1, t *brokerPublishQOS1Transaction) = t.handler == h && bp1WF(t)
+//@ opaque pred bp2Entry(h *handler1, t *brokerPublishQOS2Transaction) = t.handler == h && bp2WF(t)
+//@ pred txEntryWF(h *handler1, v iface) = v != nil &&
+//@      (istype(v, *subscribeTransaction) ==> subEntry(h, v.(*subscribeTransaction))) &&
+//@      (istype(v, *clientPublishQOS1Transaction) ==> cpubEntry(h, v.(*clientPublishQOS1Transaction))) &&
+//@      (istype(v, *brokerPublishQOS2Transaction) ==> bp2Entry(h, v.(*brokerPublishQOS2Transaction))) &&
+//@      (istype(v, *brokerPublishQOS1Transaction) ==> bp1Entry(h, v.(*brokerPublishQOS1Transaction))) &&
+//@      (istype(v, *brokerPublishQOS0Transaction) ==> bp0Entry(h, v.(*brokerPublishQOS0Transaction)))
+// owns (zz_bp_contracts_verif.go): no two stored exchanges share their retry transaction.
+//@ pred txEntries(h *handler1) = forall k uint16 :: (k in h.transactions.bypktID) ==> txEntryWF(h, h.transactions.bypktID[k]) && owns(h.transactions.bypktID[k])
+// pendInv (zz_bp_contracts_verif.go): topic IDs announced in a REGISTER that is still unanswered are drawn, unbound and pairwise different.
+//@ pred txWF(h *handler1) = txEntries(h) && pendInv(h)
 
 // ---- C03: SUBSCRIBE / SUBACK ----
 //@ func newSubscribeTransaction
@@ -426,7 +443,8 @@ package gateway
 //@   ensures [C25] keeps_conn: connTx(h)
 //@   ensures [C25] keeps_tx_new: (snSubscribe.messageID in h.transactions.bypktID) ==> txEntryWF(h, h.transactions.bypktID[snSubscribe.messageID])
 //@   ensures [C25] keeps_tx_old: forall k uint16 :: k != snSubscribe.messageID && (k in h.transactions.bypktID) ==> txEntryWF(h, h.transactions.bypktID[k])
-//@   ensures [C25] keeps_tx: txWF(h)
+//@   ensures [C25] keeps_entries: txEntries(h)
+//@   ensures [C25] keeps_pend: pendInv(h)
 //@   ensures [C03] at_most_one: (h.mqttOutN == n0 || h.mqttOutN == n0 + 1) && (h.snOutN == old(h.snOutN) || h.snOutN == old(h.snOutN) + 1)
 //@   ensures [C03] one_to_one: result == nil ==> (h.mqttOutN == n0 + 1) != (h.snOutN == old(h.snOutN) + 1) || old(state(h)) == 2
 //@   ensures [C03] is_subscribe: h.mqttOutN == n0 + 1 ==> istype(h.mqttOut[n0], *mqPkts.SubscribePacket) && h.snOutN == old(h.snOutN)
@@ -465,29 +483,6 @@ package gateway
 //@   ensures [C03] filter_predefined: h.mqttOutN == n0 + 1 && snUnsubscribe.TopicIDType == 1 ==>
 //@      h.mqttOut[n0].(*mqPkts.UnsubscribePacket).Topics[0] == nameSpec(h.predefinedTopics, h.clientID, snUnsubscribe.TopicID)
 
-// ---- broker-initiated PUBLISH flows (contracts assumed for now: bodies not yet under proof) ----
-//@ func (*handler1).handleBrokerPublish
-//@   trusted
-//@   requires [C25] inv: hInv(h) && txWF(h) && mqPublish != nil
-//@   assigns *
-//@   ensures [C25] keeps_inv: hInv(h) && txWF(h)
-//@   ensures [C25] state_same: state(h) == old(state(h))
-//@   ensures [C14] no_disconnect: (h.mqttOutN == old(h.mqttOutN) || h.mqttOutN == old(h.mqttOutN) + 1) &&
-//@      (h.mqttOutN == old(h.mqttOutN) + 1 ==> !istype(h.mqttOut[old(h.mqttOutN)], *mqPkts.DisconnectPacket))
-//@   ensures [C04] never_rebinds: forall k iface :: old(k in h.registeredTopics) ==> (k in h.registeredTopics) &&
-//@      smGet(h.registeredTopics, k) == old(smGet(h.registeredTopics, k))
-//@ func (*brokerPublishQOS2Transaction).Pubrel
-//@   trusted
-//@   requires [C25] wf: t.handler != nil && hInv(t.handler) && txWF(t.handler)
-//@   assigns *
-//@   let h0 = old(t.handler)
-//@   ensures [C25] same_handler: t.handler == h0
-//@   ensures [C25] keeps: hInv(h0) && txWF(h0) && state(h0) == old(state(h0))
-//@   ensures [C14] no_disconnect: (h0.mqttOutN == old(h0.mqttOutN) || h0.mqttOutN == old(h0.mqttOutN) + 1) &&
-//@      (h0.mqttOutN == old(h0.mqttOutN) + 1 ==> !istype(h0.mqttOut[old(h0.mqttOutN)], *mqPkts.DisconnectPacket))
-//@   ensures [C04] never_rebinds: forall k iface :: old(k in h0.registeredTopics) ==> (k in h0.registeredTopics) &&
-//@      smGet(h0.registeredTopics, k) == old(smGet(h0.registeredTopics, k))
-
 // ---- the step for a packet from the broker ----
 //@ spec snReply(h *handler1, n int) iface = h.snOut[n]
 //@ func (*handler1).handleMqtt
@@ -502,6 +497,8 @@ package gateway
 //@   at Suback.0 before assert [C25] entry_wf: txEntryWF(h, box(*subscribeTransaction, arg(0)))
 //@   at Suback.0 before assert [C25] same_handler_s: arg(0).handler == h
 //@   at Pubrel.0 before assert [C25] entry_wf: txEntryWF(h, box(*brokerPublishQOS2Transaction, arg(0)))
+//@   at Pubrel.0 before assert [C25] same_handler_b: arg(0).handler == h
+//@   at Pubrel.0 after assert [C25] entry_still_wf: txEntryWF(h, box(*brokerPublishQOS2Transaction, arg(0)))
 //@   ensures [C25] keeps_basic: h.cfg != nil && h.state != nil && h.snConn != nil && h.mqttConn != nil && h.transactions != nil && state(h) <= 3
 //@   ensures [C25] keeps_store: storeInv(h.transactions)
 //@   ensures [C25] keeps_seq: topicSeq(h)
@@ -509,7 +506,8 @@ package gateway
 //@   ensures [C25] keeps_bound: boundOnce(h)
 //@   ensures [C25] keeps_buf: bufWF(h)
 //@   ensures [C25] keeps_conn: connTx(h)
-//@   ensures [C25] keeps_tx: txWF(h)
+//@   ensures [C25] keeps_entries: txEntries(h)
+//@   ensures [C25] keeps_pend: pendInv(h)
 //@   ensures [C03] pubrec_relayed: istype(pkt, *mqPkts.PubrecPacket) ==> h.mqttOutN == m0 && (h.snOutN == s0 || h.snOutN == s0 + 1) &&
 //@      (old(state(h)) != 2 && result == nil ==> h.snOutN == s0 + 1) &&
 //@      (h.snOutN == s0 + 1 ==> istype(h.snOut[s0], *snPkts1.Pubrec) && h.snOut[s0].(*snPkts1.Pubrec).messageID == pkt.(*mqPkts.PubrecPacket).MessageID)
@@ -534,74 +532,6 @@ package gateway
 //@   requires [C25] group: h.group != nil
 //@   ensures [C25] cancel: result != nil
 
-// ---- broker-initiated transactions answered by the client (contracts assumed for now) ----
-//@ func (*brokerPublishQOS0Transaction).Regack
-//@   trusted
-//@   requires [C25] wf: t.handler != nil && hInv(t.handler) && txWF(t.handler)
-//@   assigns *
-//@   let h0 = old(t.handler)
-//@   ensures [C25] same_handler: t.handler == h0
-//@   ensures [C25] keeps: hInv(h0) && txWF(h0) && state(h0) == old(state(h0))
-//@   ensures [C14] no_disconnect: (h0.mqttOutN == old(h0.mqttOutN) || h0.mqttOutN == old(h0.mqttOutN) + 1) &&
-//@      (h0.mqttOutN == old(h0.mqttOutN) + 1 ==> !istype(h0.mqttOut[old(h0.mqttOutN)], *mqPkts.DisconnectPacket))
-//@   ensures [C04] never_rebinds: forall k iface :: old(k in h0.registeredTopics) ==> (k in h0.registeredTopics) &&
-//@      smGet(h0.registeredTopics, k) == old(smGet(h0.registeredTopics, k))
-//@ func (*brokerPublishQOS1Transaction).Regack
-//@   trusted
-//@   requires [C25] wf: t.handler != nil && hInv(t.handler) && txWF(t.handler)
-//@   assigns *
-//@   let h0 = old(t.handler)
-//@   ensures [C25] same_handler: t.handler == h0
-//@   ensures [C25] keeps: hInv(h0) && txWF(h0) && state(h0) == old(state(h0))
-//@   ensures [C14] no_disconnect: (h0.mqttOutN == old(h0.mqttOutN) || h0.mqttOutN == old(h0.mqttOutN) + 1) &&
-//@      (h0.mqttOutN == old(h0.mqttOutN) + 1 ==> !istype(h0.mqttOut[old(h0.mqttOutN)], *mqPkts.DisconnectPacket))
-//@   ensures [C04] never_rebinds: forall k iface :: old(k in h0.registeredTopics) ==> (k in h0.registeredTopics) &&
-//@      smGet(h0.registeredTopics, k) == old(smGet(h0.registeredTopics, k))
-//@ func (*brokerPublishQOS2Transaction).Regack
-//@   trusted
-//@   requires [C25] wf: t.handler != nil && hInv(t.handler) && txWF(t.handler)
-//@   assigns *
-//@   let h0 = old(t.handler)
-//@   ensures [C25] same_handler: t.handler == h0
-//@   ensures [C25] keeps: hInv(h0) && txWF(h0) && state(h0) == old(state(h0))
-//@   ensures [C14] no_disconnect: (h0.mqttOutN == old(h0.mqttOutN) || h0.mqttOutN == old(h0.mqttOutN) + 1) &&
-//@      (h0.mqttOutN == old(h0.mqttOutN) + 1 ==> !istype(h0.mqttOut[old(h0.mqttOutN)], *mqPkts.DisconnectPacket))
-//@   ensures [C04] never_rebinds: forall k iface :: old(k in h0.registeredTopics) ==> (k in h0.registeredTopics) &&
-//@      smGet(h0.registeredTopics, k) == old(smGet(h0.registeredTopics, k))
-//@ func (*brokerPublishQOS1Transaction).Puback
-//@   trusted
-//@   requires [C25] wf: t.handler != nil && hInv(t.handler) && txWF(t.handler)
-//@   assigns *
-//@   let h0 = old(t.handler)
-//@   ensures [C25] same_handler: t.handler == h0
-//@   ensures [C25] keeps: hInv(h0) && txWF(h0) && state(h0) == old(state(h0))
-//@   ensures [C14] no_disconnect: (h0.mqttOutN == old(h0.mqttOutN) || h0.mqttOutN == old(h0.mqttOutN) + 1) &&
-//@      (h0.mqttOutN == old(h0.mqttOutN) + 1 ==> !istype(h0.mqttOut[old(h0.mqttOutN)], *mqPkts.DisconnectPacket))
-//@   ensures [C04] never_rebinds: forall k iface :: old(k in h0.registeredTopics) ==> (k in h0.registeredTopics) &&
-//@      smGet(h0.registeredTopics, k) == old(smGet(h0.registeredTopics, k))
-//@ func (*brokerPublishQOS2Transaction).Pubrec
-//@   trusted
-//@   requires [C25] wf: t.handler != nil && hInv(t.handler) && txWF(t.handler)
-//@   assigns *
-//@   let h0 = old(t.handler)
-//@   ensures [C25] same_handler: t.handler == h0
-//@   ensures [C25] keeps: hInv(h0) && txWF(h0) && state(h0) == old(state(h0))
-//@   ensures [C14] no_disconnect: (h0.mqttOutN == old(h0.mqttOutN) || h0.mqttOutN == old(h0.mqttOutN) + 1) &&
-//@      (h0.mqttOutN == old(h0.mqttOutN) + 1 ==> !istype(h0.mqttOut[old(h0.mqttOutN)], *mqPkts.DisconnectPacket))
-//@   ensures [C04] never_rebinds: forall k iface :: old(k in h0.registeredTopics) ==> (k in h0.registeredTopics) &&
-//@      smGet(h0.registeredTopics, k) == old(smGet(h0.registeredTopics, k))
-//@ func (*brokerPublishQOS2Transaction).Pubcomp
-//@   trusted
-//@   requires [C25] wf: t.handler != nil && hInv(t.handler) && txWF(t.handler)
-//@   assigns *
-//@   let h0 = old(t.handler)
-//@   ensures [C25] same_handler: t.handler == h0
-//@   ensures [C25] keeps: hInv(h0) && txWF(h0) && state(h0) == old(state(h0))
-//@   ensures [C14] no_disconnect: (h0.mqttOutN == old(h0.mqttOutN) || h0.mqttOutN == old(h0.mqttOutN) + 1) &&
-//@      (h0.mqttOutN == old(h0.mqttOutN) + 1 ==> !istype(h0.mqttOut[old(h0.mqttOutN)], *mqPkts.DisconnectPacket))
-//@   ensures [C04] never_rebinds: forall k iface :: old(k in h0.registeredTopics) ==> (k in h0.registeredTopics) &&
-//@      smGet(h0.registeredTopics, k) == old(smGet(h0.registeredTopics, k))
-
 // ---- the step for a packet from the client ----
 // decodable: facts every packet produced by the decoder satisfies (C22 postconditions of Unpack).
 //@ pred decodable(pkt iface) = pkt != nil && (istype(pkt, *snPkts1.Subscribe) ==> pkt.(*snPkts1.Subscribe).TopicIDType != 3) &&
@@ -623,6 +553,10 @@ package gateway
 //@   at Puback.0 before assert [C25] entry_wf: txEntryWF(h, box(*brokerPublishQOS1Transaction, arg(0)))
 //@   at Pubrec.0 before assert [C25] entry_wf: txEntryWF(h, box(*brokerPublishQOS2Transaction, arg(0)))
 //@   at Pubcomp.0 before assert [C25] entry_wf: txEntryWF(h, box(*brokerPublishQOS2Transaction, arg(0)))
+//@   at Regack.0 after assert [C25] entry_still_wf: txEntryWF(h, arg(0))
+//@   at Puback.0 after assert [C25] entry_still_wf: txEntryWF(h, box(*brokerPublishQOS1Transaction, arg(0)))
+//@   at Pubrec.0 after assert [C25] entry_still_wf: txEntryWF(h, box(*brokerPublishQOS2Transaction, arg(0)))
+//@   at Pubcomp.0 after assert [C25] entry_still_wf: txEntryWF(h, box(*brokerPublishQOS2Transaction, arg(0)))
 //@   at snSend.1 after let afterFirst = h.snOutN
 //@   loop 0 invariant [C11] awake: state(h) == 3 && h.snConn != nil && h.state != nil && rangeindex >= -1 && rangeindex < len(old(h.pktBuffer))
 //@   loop 0 invariant [C11] delivered_count: h.snOutN == s0 + rangeindex + 1 && h.mqttOutN == m0
@@ -638,7 +572,8 @@ package gateway
 //@   ensures [C25] keeps_bound: boundOnce(h)
 //@   ensures [C25] keeps_buf: bufWF(h)
 //@   ensures [C25] keeps_conn: connTx(h)
-//@   ensures [C25] keeps_tx: txWF(h)
+//@   ensures [C25] keeps_entries: txEntries(h)
+//@   ensures [C25] keeps_pend: pendInv(h)
 //@   ensures [C07] gate: old(state(h)) == 0 && !old(legalWhenDisconnected(h, pkt)) ==> result == ErrIllegalPacketWhenDisconnected &&
 //@      h.mqttOutN == m0 && h.snOutN == s0 && state(h) == 0
 //@   ensures [C07] no_activation_by_client_packet: old(state(h)) == 0 ==> state(h) == 0
